@@ -118,21 +118,56 @@ fn ctx_view(ctx: &ServiceInstallCtx, base: &Path) -> Value {
     })
 }
 
+fn list_files(dir: &Path, base: &Path, out: &mut Vec<String>) {
+    if let Ok(rd) = std::fs::read_dir(dir) {
+        for e in rd.flatten() {
+            let p = e.path();
+            if p.is_dir() {
+                list_files(&p, base, out);
+            } else {
+                out.push(scrub(&p.to_string_lossy(), base));
+            }
+        }
+    }
+}
+
+/// Runs antnode on the argument list with the verification hook in `effects` mode: it prints the parsed
+/// options, performs its real start-up up to the first bootstrap-cache flush (root dir + key, logging,
+/// cache store) with HOME pointing into the scratch directory, and exits.  Reports exit status, the dump
+/// and every file that exists under the scratch directory afterwards.
 fn run_antnode(bin: &str, ctx: &ServiceInstallCtx, base: &Path) -> Value {
+    // remove what a previous run on this scratch directory left behind
+    let _ = std::fs::remove_dir_all(base.join("home"));
+    let _ = std::fs::remove_dir_all(base.join("logs"));
+    let _ = std::fs::remove_file(base.join("data").join("antnode1").join("secret-key"));
+    if let Ok(rd) = std::fs::read_dir(base) {
+        for e in rd.flatten() {
+            let name = e.file_name().to_string_lossy().to_string();
+            if name.starts_with("cache") {
+                let _ = std::fs::remove_dir_all(e.path());
+            }
+        }
+    }
     let out = std::process::Command::new(bin)
         .args(&ctx.args)
-        .env("VERIF_DUMP_OPT", "1")
+        .env("VERIF_DUMP_OPT", "effects")
+        .env("HOME", base.join("home"))
+        .env_remove("XDG_DATA_HOME")
         .env_remove("ANT_PEERS")
         .env_remove("EVM_NETWORK")
         .env_remove("RPC_URL")
         .output();
+    let mut files = vec![];
+    list_files(base, base, &mut files);
+    files.sort();
     match out {
         Ok(o) => json!({
             "code": o.status.code(),
             "dump": scrub(&String::from_utf8_lossy(&o.stdout), base),
             "stderr": scrub(&String::from_utf8_lossy(&o.stderr).chars().take(1500).collect::<String>(), base),
+            "files": files,
         }),
-        Err(e) => json!({ "code": -1, "dump": "", "stderr": format!("spawn failed: {e}") }),
+        Err(e) => json!({ "code": -1, "dump": "", "stderr": format!("spawn failed: {e}"), "files": files }),
     }
 }
 
